@@ -36,7 +36,11 @@ claim("C11",
       "Static, all paths: tsigVerify's success only after strip, digest-input construction, the provider's verdict on exactly those values and then the 64-bit fudge window; HMAC provider accepts only on hmac.Equal, algorithm table, key lookup by owner name; RFC 8945 layouts of the three digest-input structs, their packers and fill sites; digest-input composition (original ID, timers-only selection, request MAC always covered when given); generation framing (TSIG stripped before packing, appended last, ARCOUNT+1, no MAC for BADKEY/BADSIG); stripTsig's cut offset and ARCOUNT-1. Equality with the RFC 8945 HMAC for all inputs, single-bit alteration facts and envelope-chain histories are not decided.",
       STATIC_NOTE, "guarded-success (edge dominance) on SSA; side-struct conformance; byte-access provenance; buffer composition classes")
 
+claim("C15",
+      "Static, all paths of the receive loops (with path-sensitive enumeration of loop iterations where loop-carried flags correlate branches): connection closed before channel in a deferred function installed before the loop, every exit preceded by a send, error-free envelopes only after read-ok / ID match / RCODE 0 on every envelope and SOA-first in the first iteration, timers-only on before the second read, every message verified against the running MAC when a provider is configured with the verdict returned, sender-side per-envelope reply/write/timers-only and MAC chaining in both writers. The exact delivery/termination behaviour for every envelope composition (IXFR serial counting) is not decided: histories.",
+      STATIC_NOTE, "guarded-success and must-pass on SSA CFG; iteration-path enumeration with correlated-branch pruning")
+
 _pending = "rules for this property are designed (DESIGN.md §4) but not implemented yet; not claimed until they run"
-for p in ["C02","C03","C05","C06","C07","C09","C12","C15","C16","C18"]:
+for p in ["C02","C03","C05","C06","C07","C09","C12","C16","C18"]:
     na(p, _pending)
 na("C19", "every clause is an equality between index arithmetic on a runtime string and its label sequence; no pairing/ownership/ordering/table structure to decide statically (DESIGN.md §8)")
